@@ -471,6 +471,11 @@ class Interp:
                 elif _strlike(l) or _strlike(r):
                     return mkstr([self.to_strpart(l), self.to_strpart(r)])
             if isinstance(l, (Tup, Lst)) and isinstance(r, (Tup, Lst)):
+                if type(l) is not type(r):
+                    # list + tuple (either way) is a TypeError in Python
+                    raise _Raise(ExcV("builtins.TypeError", {}, [Const("can only concatenate list (not \"tuple\") to list")]))
+                if isinstance(l, Tup):
+                    return Tup(l.items + r.items)
                 return Lst(l.items + r.items, open=getattr(l, "open", False) or getattr(r, "open", False))
             if isinstance(l, (Tup, Lst)) and isinstance(r, (Seq, Sym)):
                 return Lst(l.items + [Sym(f"elem({tagof(r)})", origin=("elem", r))], open=True)
@@ -1059,7 +1064,7 @@ class Interp:
             if memo_key in self._memo:
                 self.effect("cache-hit", key, site)
                 return self._memo[memo_key]
-        if self.depth >= self.MAX_DEPTH or self.callstack.count(key) >= 2:
+        if self.depth >= self.MAX_DEPTH or self.callstack.count(key) >= 4:
             self.effect("call", key, args, kwargs, site)
             return Sym(f"{key}()@{self.siteid(site)}", origin=("call", key, args, kwargs))
         node = f.node
@@ -1379,6 +1384,27 @@ class Interp:
         self.effect("call", d, args, kwargs, site)
         return Sym(f"{d}()@{self.siteid(site)}", origin=("call", d, args, kwargs), typ=_EXT_RETURNS.get(d))
 
+    def _transform_tree(self, n: NodeV, fn, extra, kw, site, env, depth: int) -> Val:
+        new = self.call(fn, [n, *extra], kw, site, env)
+        if new is not n or n.open or depth > 8:
+            return new
+        for k, v in list(n.args.items()):
+            if isinstance(v, NodeV) and not v.open:
+                c = self._transform_tree(v, fn, extra, kw, site, env, depth + 1)
+                if c is not v:
+                    n.args[k] = c
+                    if isinstance(c, NodeV):
+                        c.parent = n
+            elif isinstance(v, (Lst, Tup)) and not getattr(v, "open", False):
+                for i, x in enumerate(list(v.items)):
+                    if isinstance(x, NodeV) and not x.open:
+                        c = self._transform_tree(x, fn, extra, kw, site, env, depth + 1)
+                        if c is not x:
+                            v.items[i] = c
+                            if isinstance(c, NodeV):
+                                c.parent = n
+        return n
+
     def _to_identifier(self, v, quoted) -> Val:
         """sqlglot.exp.to_identifier: None stays None, an Identifier is passed through, text becomes an Identifier that is quoted
         when asked for or when the text is not a safe bare name."""
@@ -1547,6 +1573,31 @@ class Interp:
             if r is not None:
                 return r
         if isinstance(recv, (Lst, Tup)):
+            if isinstance(recv, Lst) and not recv.open and name in ("sort", "reverse", "insert", "clear"):
+                if name == "reverse":
+                    recv.items.reverse()
+                    return Const(None)
+                if name == "clear":
+                    del recv.items[:]
+                    return Const(None)
+                if name == "insert" and isinstance(a0, Const) and isinstance(a0.v, int) and len(args) > 1:
+                    recv.items.insert(a0.v, args[1])
+                    return Const(None)
+                if name == "sort":
+                    keyf = kwargs.get("key")
+                    keys = [self.call(keyf, [x], {}, site, env) if keyf is not None else x for x in recv.items]
+                    rev = bool(isinstance(kwargs.get("reverse"), Const) and kwargs["reverse"].v)
+                    if all(isinstance(k, Const) for k in keys):
+                        try:
+                            order = sorted(range(len(keys)), key=lambda i: keys[i].v, reverse=rev)
+                            recv.items[:] = [recv.items[i] for i in order]  # in place: every alias of the list sees it
+                            self.effect("list-sort", recv, site)
+                            return Const(None)
+                        except TypeError:
+                            pass
+                    recv.open = True  # order unknown
+                    self.effect("list-sort", recv, site)
+                    return Const(None)
             if name == "append" and isinstance(recv, Lst):
                 recv.items.append(a0)
                 return Const(None)
@@ -1769,8 +1820,15 @@ class Interp:
             extra = list(args[1:])  # Expression.transform(fun, *args, copy=True, **kwargs) calls fun(node, *args, **kwargs)
             self.effect("transform", n, a0, {**kwargs, **{f"#{j + 1}": v for j, v in enumerate(extra)}}, site)
             r = None
+            kw = {k: v for k, v in kwargs.items() if k != "copy"}
             if isinstance(a0, (Func, Lam, Part)):
-                r = self.call(a0, [n, *extra], {k: v for k, v in kwargs.items() if k != "copy"}, site, env)
+                nested = any(c.startswith("transforms") for c in self.callstack)
+                if nested and not n.open:
+                    # a transform started by a rewrite on one of its operands: sqlglot's pre-order walk — the function is applied
+                    # to every node of the subtree; below a node it replaced nothing is visited
+                    r = self._transform_tree(n, a0, extra, kw, site, env, 0)
+                else:
+                    r = self.call(a0, [n, *extra], kw, site, env)
             if isinstance(r, NodeV):
                 return r
             return NodeV(None, name=f"{n.name}.transform@{self.siteid(site)}")
